@@ -8,6 +8,7 @@ get_markings / is_marked under every flag combination, and three law probes.  Th
 reference is the set model of oracle/markmodel.py (MarkState); ancestors and
 descendants are taken on the path tree, component-wise.
 """
+import collections
 import copy
 import json
 
@@ -155,8 +156,10 @@ def _run(case, clock):
     head = build(subject, version, form)
     prev_doc = ser(head)
     model = mm.MarkState.from_doc(prev_doc)
-    if model.pairs != mm.MarkState.from_doc(subject).pairs or len(mm.read_pairs(prev_doc)) != len(model.pairs):
+    if model.pairs != mm.MarkState.from_doc(subject).pairs:
         raise core.HarnessError("subject markings not carried over: %s" % core.short(subject))
+    if len(mm.read_pairs(prev_doc)) != len(model.pairs):
+        classes.append("subject:pair-listed-twice")
     usable, dropped = usable_selectors({k: v for k, v in subject.items()}, form)
     usable_set = set(usable)
     all_paths = [mm.join(c) for c, _ in mm.enum_paths(subject) if c[0] not in mm.MARKING_PROPS]
@@ -272,6 +275,34 @@ def _run(case, clock):
                     fail("law-step-refused:%s" % type(e2).__name__, core.fmt_exc(e2), i)
                 elif set(_pairs_of(r2)) != model.pairs:
                     fail("add-remove-not-identity", "before %s, after add+remove %s" % (sorted(model.pairs), sorted(_pairs_of(r2))), i)
+            elif kind == "law_flags":
+                # set / clear restricted to one kind of marking, on a selector that is made to carry both kinds first, through the
+                # module function and (for objects) the method of the same name: both must equal the model's clear(kinds) [+ add]
+                if sx is None:
+                    continue
+                prep = [S.MARKING_IDS[1]] + ([S.LANGS[0]] if version == "2.1" else [])
+                r0, e0 = _mutate(head, form, dict(op, api="function"), version, "add", prep, sx)
+                if e0 is not None:
+                    fail("law-step-refused:%s" % type(e0).__name__, core.fmt_exc(e0), i)
+                    continue
+                m0 = model.add(prep, sx)
+                for api in (("function", "method") if form == "object" else ("function",)):
+                    for mr, lg in ((True, False), (False, True), (True, True)):
+                        fop = dict(op, api=api, marking_ref=mr, lang=lg)
+                        if op["which"] == "set":
+                            exp, gone, on = m0.set(x, sx, mr, lg)
+                        else:
+                            exp, gone, on = m0.clear(sx, mr, lg)
+                        r1, e1 = _mutate(r0, form, fop, version, op["which"], x, sx)
+                        classes.append("law_flags:%s:%s:ref=%d,lang=%d" % (op["which"], api, mr, lg))
+                        if e1 is not None:
+                            nothing = any(not any(p[0] == t for p in gone) for t in sx)
+                            if isinstance(e1, MarkingNotFoundError) and nothing:
+                                continue
+                            fail("law-step-refused:%s" % type(e1).__name__, "%s_markings(%s, marking_ref=%s, lang=%s) via %s: %s" % (op["which"], sx, mr, lg, api, core.fmt_exc(e1)), i)
+                        elif set(_pairs_of(r1)) != exp.pairs:
+                            fail("flagged-%s-wrong:%s" % (op["which"], api), "%s_markings(%s%s, marking_ref=%s, lang=%s) via %s on %s gave %s, clear-then-add on exactly the selected kinds gives %s" % (
+                                op["which"], "" if op["which"] == "clear" else "%s, " % x, sx, mr, lg, api, sorted(m0.pairs), sorted(_pairs_of(r1)), sorted(exp.pairs)), i)
             if ser(head) != prev_doc:
                 fail("input-modified", "law probe changed its input", i)
             continue
@@ -332,7 +363,8 @@ def _run(case, clock):
             continue
         if set(pairs) != new_model.pairs:
             fail("wrong-marking-set:%s:%s" % (kind, level), "pairs %s, model %s (before: %s)" % (sorted(pairs), sorted(new_model.pairs), sorted(model.pairs)), i)
-        if len(pairs) != len(set(pairs)):
+        before_n = collections.Counter(mm.read_pairs(prev_doc))
+        if any(n > max(1, before_n[p]) for p, n in collections.Counter(pairs).items()):
             fail("duplicate-pairs", "%s" % sorted(pairs), i)
         for p in mm.MARKING_PROPS:
             if p in d and not d[p]:
@@ -389,7 +421,7 @@ def an_op(draw, version, form, usable, related, is_md):
         return picks(draw, pool, 1, max_n)
 
     kind = pick(draw, ["add"] * 5 + ["remove"] * 3 + ["clear"] * 2 + ["set"] * 2 + ["get"] * 5 + ["is_marked"] * 6 +
-                                ["law_idem", "law_order", "law_add_remove"])
+                                ["law_idem", "law_order", "law_add_remove", "law_flags"])
     op = {"op": kind}
     if form == "object":
         op["api"] = pick(draw, ["function", "method"])
@@ -426,6 +458,11 @@ def an_op(draw, version, form, usable, related, is_md):
         if kind == "law_order":
             op["selectors2"] = selectors() if op["selectors"] is not None else None
             op["markings2"] = markings(op["selectors2"], 1)
+        if kind == "law_flags":
+            op["which"] = pick(draw, ["set", "clear"])
+            if op["selectors"] is None and usable:
+                op["selectors"] = picks(draw, usable, 1, 2)
+                op["markings"] = markings(op["selectors"], 1)
     return op
 
 
@@ -457,10 +494,10 @@ def run(ctx):
     ctx.rule = ("histories of <= 25 calls over a generated subject: identity / malware / indicator / report / relationship / campaign of STIX 2.0 "
                 "and 2.1 with created_by_ref and 1-6 custom properties named name_suffix, labels_x, description_x, created_by, x_map{a,ab,abc,..}, "
                 "x_list (sibling names that are character prefixes of one another, nested dictionaries and lists), optionally already "
-                "carrying object and granular markings; the same as plain dict; and marking-definitions (query only).  Calls: add / remove / "
+                "carrying object and granular markings (in a quarter of those not in compressed form: the same pair listed twice); the same as plain dict; and marking-definitions (query only).  Calls: add / remove / "
                 "set / clear at object level or on 1-3 real paths (module function or method; marking ids, MarkingDefinition objects, "
                 "language tags for 2.1; marking_ref / lang flags), get_markings / is_marked with every inherited / descendants / "
-                "marking_ref / lang combination, and idempotence / order / add-remove probes.  Non-trivial = an add followed later by a "
+                "marking_ref / lang combination, and idempotence / order / add-remove / kind-restricted set-clear probes (function and method).  Non-trivial = an add followed later by a "
                 "remove / clear / set touching the same selector, or an inherited / descendants query on a selector that has a "
                 "prefix-related sibling path in the subject; distinct = distinct history.")
     ctx.assumptions = ["oracle/markmodel.py set model and path tree (self-tested)",
@@ -480,8 +517,9 @@ def run(ctx):
     core.run_given(ctx, history(), body, ctx.n(2600, 15000), label="c07-histories")
     if not ctx.violations and ctx.evaluations >= 1000:
         need = ["op:%s:%s" % (k, lv) for k in ("add", "remove", "set", "clear", "get", "is_marked") for lv in ("object", "granular")]
-        need += ["op:law_idem", "op:law_order", "op:law_add_remove", "form:dict", "form:object", "version:2.0", "version:2.1", "api:method",
-                 "api:function", "lang-marking", "marking-as-object", "subject:marking-definition", "query-on-prefix-sibling"]
+        need += ["law_flags:%s:%s:ref=%d,lang=%d" % (w, a, r, g) for w in ("set", "clear") for a in ("function", "method") for r, g in ((1, 0), (0, 1), (1, 1))]
+        need += ["op:law_idem", "op:law_order", "op:law_add_remove", "op:law_flags", "form:dict", "form:object", "version:2.0", "version:2.1", "api:method",
+                 "api:function", "lang-marking", "marking-as-object", "subject:marking-definition", "query-on-prefix-sibling", "subject:pair-listed-twice"]
         need += ["get-flags:inh=%d,desc=%d,ref=%d,lang=%d" % (a, b, c, d) for a in (0, 1) for b in (0, 1) for c in (0, 1) for d in (0, 1)]
         need += ["is_marked-flags:inh=%d,desc=%d,marking=%s" % (a, b, m) for a in (0, 1) for b in (0, 1) for m in ("none", "ref", "lang")]
         for k in need:
